@@ -1,5 +1,6 @@
 import SdJwt.Impl.Issuer
 import SdJwt.Lemmas.IssuerL
+import SdJwt.Lemmas.CodecL
 /-!
 # C13 — salts, digests and decoys give no handle for linking or counting claims  (partial)
 
@@ -100,3 +101,47 @@ theorem C13_order_transfer {α : Type} (σ : List α → List α) (τ : List α 
   have := congrArg τ h
   simpa [hτ] using this
 
+
+
+/-- **a salt carries every bit the generator returned**: `generate_salt(n)` is the base64url of the
+`n` random bytes, decoding the salt gives those bytes back, and different bytes give different
+salts — 16 bytes are 128 bits, in 22 characters -/
+theorem C13_salt_carries_all_bits (rnd rnd' : List UInt8) :
+    B64.dec (saltOf rnd).toList = some rnd ∧ (saltOf rnd = saltOf rnd' → rnd = rnd') ∧
+    (saltOf rnd).toList.length = (4 * rnd.length + 2) / 3 := by
+  refine ⟨by simp [saltOf, String.toList_ofList, B64.dec_enc], saltOf_injective rnd rnd', ?_⟩
+  simp [saltOf, String.toList_ofList, B64.enc_length]
+
+/-- **digests repeat only if the generator repeats a salt or SHA-2 collides**: if the digests of
+two disclosures coincide — in one issuance or across issuances, for identical or different claims —
+then the generator returned the same salt bytes for both (and name and value agree), or two
+different byte strings with the same hash have been found -/
+theorem C13_repeat_is_collision (c : Codec) (hc : ∀ j, c.parse (c.render j) = some j) (alg : String)
+    (rnd rnd' : List UInt8) (k k' : Option String) (v v' : J)
+    (h : c.hash alg (c.discString (saltOf rnd) k v) = c.hash alg (c.discString (saltOf rnd') k' v')) :
+    (rnd = rnd' ∧ k = k' ∧ v = v') ∨ ∃ x y, x ≠ y ∧ c.sha alg x = c.sha alg y := by
+  rcases digest_repeat c hc alg _ _ k k' v v' h with ⟨h1, h2, h3⟩ | h
+  · exact .inl ⟨saltOf_injective _ _ h1, h2, h3⟩
+  · exact .inr h
+
+/-- **decoys have the form of real digests**: both are the base64url of a hash value, so under
+`sha-256` (32 bytes) both are 43 characters of the base64url alphabet, whatever was hashed -/
+theorem C13_decoy_same_form (c : Codec) (hlen : ∀ x, (c.sha "sha-256" x).length = 32)
+    (rnd : List UInt8) (s : String) :
+    (c.decoy rnd).toList.length = 43 ∧ (c.hash "sha-256" s).toList.length = 43 ∧
+    (∀ ch ∈ (c.decoy rnd).toList, ∃ n, B64.val ch = some n) ∧
+    (∀ ch ∈ (c.hash "sha-256" s).toList, ∃ n, B64.val ch = some n) := by
+  simp only [Codec.decoy, Codec.hash, String.toList_ofList, B64.enc_length, hlen]
+  exact ⟨trivial, trivial, B64.enc_alphabet _, B64.enc_alphabet _⟩
+
+/-- a decoy coincides with a real digest only if SHA-2 collides or a disclosure string equals a
+32-byte salt string (43 characters; a disclosure string is longer than that as soon as its JSON text
+has more than 32 bytes) -/
+theorem C13_decoy_vs_digest (c : Codec) (rnd : List UInt8) (s : String)
+    (h : c.decoy rnd = c.hash "sha-256" s) :
+    s = saltOf rnd ∨ ∃ x y, x ≠ y ∧ c.sha "sha-256" x = c.sha "sha-256" y := by
+  simp only [Codec.decoy, Codec.hash] at h
+  have h1 := B64.enc_injective _ _ (String.ofList_inj.mp h)
+  by_cases he : utf8 (saltOf rnd) = utf8 s
+  · exact .inl (utf8_injective _ _ he).symm
+  · exact .inr ⟨_, _, he, h1⟩
